@@ -128,11 +128,18 @@ def pad_trim_rule(ctx, p, K):
     m = c.lookup("padded_before_convolution_from")
     if m is None:
         raise AnchorMissing("AbstractArray2D.padded_before_convolution_from")
-    asg = [n for n in m.body_nodes() if isinstance(n, ast.Assign) and norm_text(n.targets[0]) == "new_shape"]
-    ok = len(asg) == 1 and norm_text(asg[0].value) in (canon_src("(self.shape_native[0] + (kernel_shape[0] - 1), self.shape_native[1] + (kernel_shape[1] - 1))"), canon_src("(self.shape_native[0] + kernel_shape[0] - 1, self.shape_native[1] + kernel_shape[1] - 1)"))
-    rets = wire.returns_of(m)
-    ok = ok and len(rets) == 1 and norm_text(rets[0].value) == canon_src("self.resized_from(new_shape=new_shape, mask_pad_value=mask_pad_value)")
-    ctx.ob(rule, m.key, ok, where=m, node=m.node, construct=norm_text(asg[0].value) if asg else "", message="padding for a kernel must enlarge each axis by its own kernel extent minus 1 and resize (centred) with the requested mask pad value")
+    # name-free (sa/paths.py): returns self.resized_from(new_shape=(H + K0 - 1, W + K1 - 1), mask_pad_value=mask_pad_value), the two extents compared as canonical forms
+    from .. import paths
+    from ..forms import expr_poly as _E, src_poly as _Ps
+    PSp = paths.returns(paths.path_summaries(m, project=p) or [])
+    ok = len(PSp) == 1 and isinstance(PSp[0].value, ast.Call) and paths.ptext(PSp[0].value.func) == "self.resized_from"
+    asg = []
+    if ok:
+        kw_ = paths.kwargs(PSp[0].value)
+        ns = kw_.get("new_shape")
+        ok = set(kw_) == {"new_shape", "mask_pad_value"} and paths.ptext(kw_["mask_pad_value"]) == "mask_pad_value" and isinstance(ns, (ast.Tuple, ast.List)) and len(ns.elts) == 2 \
+            and all(_E(ns.elts[k_]) == _Ps(f"self.shape_native[{k_}] + kernel_shape[{k_}] - 1") for k_ in (0, 1))
+    ctx.ob(rule, m.key, ok, where=m, node=m.node, construct=PSp[0].text[:160] if PSp else "", message="padding for a kernel must enlarge each axis by its own kernel extent minus 1 and resize (centred) with the requested mask pad value")
     t = c.lookup("trimmed_after_convolution_from")
     if t is None:
         raise AnchorMissing("AbstractArray2D.trimmed_after_convolution_from")
@@ -214,11 +221,11 @@ def class_rule(ctx, p):
     callee = p.func(f"{A2}:resized_array_2d_from")
     cs = wire.calls_to(p, m, callee.key)
     got = {k: norm_text(wire.strip_np_array(v)) for k, v in wire.kw(cs[0], callee).items()} if len(cs) == 1 else {}
-    txt = {norm_text(n.targets[0]): norm_text(n.value) for n in m.body_nodes() if isinstance(n, ast.Assign)}
-    ok = got == {"array_2d": "self.native", "resized_shape": "new_shape"} and txt.get("resized_mask") == "self.mask.resized_from(new_shape=new_shape, pad_value=mask_pad_value)"
     rets = wire.returns_of(m)
-    kwv = {k: norm_text(v) for k, v in wire.kw(rets[0].value).items()} if rets and isinstance(rets[0].value, ast.Call) else {}
-    ctx.ob(rule, m.key, ok and kwv.get("mask") == "resized_mask", where=m, node=m.node, construct=f"{got}; mask {txt.get('resized_mask')}", message="values and mask must be resized to the same new shape; the result lives on the resized parent mask (which carries pixel scales and origin)")
+    kwv = wire.kwr(m, rets[0].value) if rets and isinstance(rets[0].value, ast.Call) else {}   # name-free: the mask handed on is the parent mask resized to the same new shape
+    txt = {"resized_mask": kwv.get("mask")}
+    ok = got == {"array_2d": "self.native", "resized_shape": "new_shape"} and kwv.get("mask") == "self.mask.resized_from(new_shape=new_shape, pad_value=mask_pad_value)"
+    ctx.ob(rule, m.key, ok, where=m, node=m.node, construct=f"{got}; mask {txt.get('resized_mask')}", message="values and mask must be resized to the same new shape; the result lives on the resized parent mask (which carries pixel scales and origin)")
     _sole_producer(ctx, rule, m, cs, rets, "values", "the values of the resized array")
     mm = p.cls("autoarray.mask.mask_2d:Mask2D").lookup("resized_from")
     cs = wire.calls_to(p, mm, callee.key)
